@@ -91,7 +91,7 @@ def rule_mask_algebra(ctx, rid):
         'remove': 'the mask matrix subtracted after the map is the one added before it, column by column',
         'worker': 'each member is single-IMF extraction of X + mask column k (first element of its result)',
         'mask': 'mask is amp * cos(2 pi z t + phase_k) with t = sample index',
-        'flag': 'continue flag is any() over the member flags',
+        'flag': 'continue flag is a symmetric reduction (any / all) over the member flags',
         'nmembers': 'one member per requested phase',
     }
     problems = {}
@@ -193,7 +193,9 @@ def rule_mask_algebra(ctx, rid):
         if not okm:
             problems['mask'] = 'mask matrix is %s' % show(M)[:120]
         # flag
-        okf = flag[0] == 'call' and flag[1] in ('numpy.any', 'builtins.any') and flag[2] and flag[2][0][0] == 'comp' \
+        # any() is what the code documents; all() over the same member flags is an equally schedule-independent
+        # reduction and the property says nothing about which of the two ends a masked sift
+        okf = flag[0] == 'call' and flag[1] in ('numpy.any', 'builtins.any', 'numpy.all', 'builtins.all') and flag[2] and flag[2][0][0] == 'comp' \
             and flag[2][0][2] == ('sub', flag[2][0][3][0][0], C(1)) and flag[2][0][3][0][1] in (res, ('call', 'builtins.list', (res,), ()))
         if not okf:
             problems['flag'] = 'flag is %s' % show(flag)[:80]
@@ -221,7 +223,14 @@ def rule_grids(ctx, rid):
         a, b, n = found[2][0], found[2][1], found[2][2] if len(found[2]) > 2 else kw.get('num')
         endpoint = kw.get('endpoint', C(True))
         n1 = alg.poly(('bin', '+', S('nphases'), C(1)))
-        if a == C(0) and alg.poly(b) == alg.poly(TWO_PI):
+        # one full turn in n equal steps, starting at a multiple of 2 pi (cos is 2 pi periodic: the descending grid
+        # 2pi, 2pi - 2pi/n, ... is the same set of masks)
+        try:
+            pa, pb = alg.poly(a), alg.poly(b)
+            full_turn = (pa == alg.poly(C(0)) and pb == alg.poly(TWO_PI)) or (pa == alg.poly(TWO_PI) and pb == alg.poly(C(0)))
+        except Exception:
+            full_turn = False
+        if full_turn:
             if endpoint == C(True) and alg.poly(n) == n1:
                 # must be truncated to n
                 tr = [t for e in exits for t in subterms(e.value) if t[0] == 'sub' and t[1] == found]
